@@ -23,9 +23,10 @@ for s in seeds:
         if r.returncode != 0:
             print(s, "PATCH DOES NOT APPLY", r.stderr[:200]); continue
         row = matrix.get(s, {})
+        share = {}
         for p in props:
             try:
-                bad, ctx = selftest.run_on(p, d)
+                bad, ctx = selftest.run_on(p, d, share=share)
                 row[p] = sorted({o["key"] for o in bad})[:6]
             except extract.ExtractError as e:
                 row[p] = ["<does not build: %s>" % str(e)[-80:]]
